@@ -119,6 +119,10 @@ func (e *Exec) appendB(fr *frame, st *State, c *ssa.CallCommon, args []Value, wh
 	}
 	n := tAdd(slLen(s), lt)
 	fits := tLe(n, slCap(s))
+	if e.spec == 0 && e.quickValid(st, fits, 1500) {
+		// the capacity provably suffices: append writes in place, no reallocation branch
+		return e.appendInPlace(fr, st, c, sl, s, tsl, lt, n, srcIsStr)
+	}
 	fresh := e.allocRef(st, "append")
 	ncap := e.smt.fresh("ncap", SInt)
 	e.assume(st, tLe(n, ncap))
@@ -390,4 +394,45 @@ func (e *Exec) extBuiltinC(st *State, c *ssa.CallCommon, fn *ssa.Function, key s
 		return e.freshOf(st, "time", sig.Results()), true
 	}
 	return nil, false
+}
+
+// appendInPlace: append when len+added <= cap is known: the backing array is updated in place.
+func (e *Exec) appendInPlace(fr *frame, st *State, c *ssa.CallCommon, sl *types.Slice, s, tsl, lt, n Term, srcIsStr bool) Value {
+	et := sl.Elem()
+	single := false
+	if slv, ok := c.Args[1].(*ssa.Slice); ok && slv.Low == nil && slv.High == nil {
+		if al, ok := slv.X.(*ssa.Alloc); ok {
+			if at, ok := al.Type().(*types.Pointer).Elem().Underlying().(*types.Array); ok && at.Len() == 1 {
+				single = true
+			}
+		}
+	}
+	for _, l := range leaves(et) {
+		name, srt := e.ti.elemComp(et, l.path)
+		as := arraySort(SInt, srt)
+		H := e.heapComp(st, name, SInt, arraySort(SInt, as))
+		oldS := tSelect(H, slArr(s), as)
+		var srcAt func(k Term) Term
+		if srcIsStr {
+			srcAt = func(k Term) Term { return app(SInt, "sat", tsl, k) }
+		} else {
+			oldT := tSelect(H, slArr(tsl), as)
+			srcAt = func(k Term) Term { return tSelect(oldT, tAdd(slOff(tsl), k), srt) }
+		}
+		dst := app(SInt, "sidx", s, slLen(s))
+		var inPlace Term
+		if single {
+			inPlace = tStore(oldS, dst, srcAt(tInt(0)))
+		} else {
+			inPlace = e.smt.fresh("api", as)
+			e.assume(st, Term{fmt.Sprintf("(forall ((i Int)) (! (= (select %s i) (ite (and (<= %s i) (< i (+ %s %s))) %s (select %s i))) :pattern ((select %s i))))",
+				inPlace.S, dst.S, dst.S, lt.S, srcAt(tSub(Term{"i", SInt}, dst)).S, oldS.S, inPlace.S), SBool})
+		}
+		e.setHeap(st, name, tStore(H, slArr(s), inPlace))
+	}
+	r := mkSlice(slArr(s), slOff(s), n, slCap(s))
+	if e.quant == 0 {
+		r = e.smt.define("appended", r)
+	}
+	return r
 }
